@@ -191,7 +191,7 @@ def variant_case(draw):
     return {"g": g, "k": draw(st.integers(1, 4)), "seed": draw(st.integers(0, 2**31)),
             "dtype": draw(st.sampled_from(["complex", "complex", "int16", "int32", "int64", "float32"])),
             "zero_frac": draw(st.sampled_from([0.0, 0.3])),
-            "norm_dtype": draw(st.sampled_from(["float", "int", "readonly", "list", "float32"])),
+            "norm_dtype": draw(st.sampled_from(["float", "int", "readonly", "list", "float32", "field-larger", "field-larger"])),
             "reuse": draw(st.sampled_from(["two-fields", "twice", "after-update"]))}
 
 
@@ -266,10 +266,26 @@ def check_variants(case):
     elif nd_ == "readonly":
         spec = vals.astype(float)
         spec.setflags(write=False)
+    elif nd_ == "field-larger":
+        # the norm as a scalar field (an Ms map) on another mesh: twice the extent from the same lower corner, the SAME
+        # cell counts - every cell takes the length the map has at the cell's own position, not at its index
+        r = mesh.region
+        big = df.Mesh(region=df.Region(p1=tuple(r.pmin), p2=tuple(np.asarray(r.pmin) + 2 * (np.asarray(r.pmax) - np.asarray(r.pmin))),
+                                       dims=list(r.dims), units=list(r.units)), n=n)
+        src_vals = rng.integers(1, 9, size=n).astype(float)
+        src_field = df.Field(big, nvdim=1, value=src_vals[..., np.newaxis])
+        spec_target = np.empty(n)
+        for idx in np.ndindex(*n):
+            spec_target[idx] = src_vals[tuple(int((i + 0.5) // 2) for i in idx)]
+        spec = src_field
     else:
         spec = vals.tolist()
-    target = np.asarray(spec, dtype=float)
-    keep = np.array(spec, dtype=float).copy()
+    if nd_ == "field-larger":
+        target = spec_target
+        keep = src_vals.copy()
+    else:
+        target = np.asarray(spec, dtype=float)
+        keep = np.array(spec, dtype=float).copy()
 
     def real_field(shift, scale):
         r = np.random.default_rng(case["seed"] + shift)
@@ -284,7 +300,8 @@ def check_variants(case):
     check_lengths(f1, v1, np.linalg.norm(v1, axis=-1), v1 / np.where(np.linalg.norm(v1, axis=-1, keepdims=True) == 0, 1,
                                                                      np.linalg.norm(v1, axis=-1, keepdims=True)),
                   target, f"per-cell {nd_} norm, first use")
-    if not np.array_equal(np.asarray(spec, dtype=float), keep):
+    now = spec.array[..., 0] if nd_ == "field-larger" else np.asarray(spec, dtype=float)
+    if not np.array_equal(now, keep):
         raise Violation("norm-argument-modified", f"the caller's {nd_} norm array was changed by the setter")
     if case["reuse"] == "two-fields":
         f2 = df.Field(mesh, nvdim=k, value=v2.copy(), norm=spec)
